@@ -87,6 +87,25 @@ def transformRange (s : Stats) (lo hi : Nat) : Nat × Nat :=
   let b := hi - s.min
   ((if a % s.gcd > 0 then a / s.gcd + 1 else a / s.gcd), b / s.gcd)
 
+/-- the whole function: `none` = no row can match (empty query range, or — when the source has
+the guard `if *range.end() < stats.min_value { return None; }` — a range below the minimum) -/
+def transformRangeWith (guard : Bool) (s : Stats) (lo hi : Nat) : Option (Nat × Nat) :=
+  if lo > hi then none
+  else if guard && decide (hi < s.min) then none
+  else some (transformRange s lo hi)
+
+/-- as the current source has it (`Gen.RANGE_BELOW_MIN_GUARD` is regenerated on every run) -/
+def transformRangeCur (s : Stats) (lo hi : Nat) : Option (Nat × Nat) :=
+  transformRangeWith Gen.RANGE_BELOW_MIN_GUARD s lo hi
+
+/-- rows (positions in `s..e`) the bitpacked reader reports for a query range: those whose stored
+normalised value lies in the transformed range (mirrors BitpackedReader::get_row_ids_for_value_range
++ BitUnpacker::get_ids_for_value_range on already decoded normalised values) -/
+def rangeRowsWith (guard : Bool) (s : Stats) (norm : List Nat) (lo hi : Nat) : List Nat :=
+  match transformRangeWith guard s lo hi with
+  | none => []
+  | some r => (List.range norm.length).filter (fun i => decide (r.1 ≤ norm.getD i 0) && decide (norm.getD i 0 ≤ r.2))
+
 /-! ## Line (u64_based/line.rs), wrapping arithmetic on `BitVec 64` -/
 
 structure Line where
@@ -182,12 +201,14 @@ structure BwBlock where
   width : Nat
 deriving Repr
 
-def chunksAux (n : Nat) : Nat → List α → List (List α)
-  | 0, _ => []
-  | fuel + 1, l => if n = 0 || l.isEmpty then [] else l.take n :: chunksAux n fuel (l.drop n)
+/-- mirrors: blockwise_linear.rs::compute_num_blocks -/
+def numChunks (n len : Nat) : Nat := (len + n - 1) / n
 
-/-- consecutive chunks of `n` elements (the last one may be shorter) -/
-def chunks (n : Nat) (l : List α) : List (List α) := chunksAux n l.length l
+/-- block `b` of the serializer loop (`for _ in 0..num_blocks { vals.take(BLOCK_SIZE) }`):
+`vals[b·n .. (b+1)·n]` (the last one may be shorter) -/
+def chunk (n : Nat) (l : List α) (b : Nat) : List α := (l.drop (b * n)).take n
+
+def chunks (n : Nat) (l : List α) : List (List α) := (List.range (numChunks n l.length)).map (chunk n l)
 
 /-- one block of the serializer: normalise, train, offsets, width -/
 def bwBlockEnc (s : Stats) (block : List Nat) : BwBlock × List Nat :=
@@ -216,10 +237,13 @@ def bwBlocksDec : Nat → Bytes → Option (List BwBlock)
       let rest ← bwBlocksDec n bs
       some ({ line := l, width := w } :: rest)
 
-/-- byte offset of each block: `Σ width * BLOCK_SIZE / 8` -/
-def bwOffsets (blocks : List BwBlock) : List Nat :=
-  (blocks.foldl (fun (acc : List Nat × Nat) b =>
-      (acc.1 ++ [acc.2], acc.2 + b.width * Gen.BLOCKWISE_LINEAR_BLOCK_SIZE / 8)) ([], 0)).1
+/-- byte offset of each block: running sum of `width * BLOCK_SIZE / 8`
+(mirrors the `start_offset` loop of BlockwiseLinearCodec::load) -/
+def bwOffsetsFrom : Nat → List BwBlock → List Nat
+  | _, [] => []
+  | acc, b :: bs => acc :: bwOffsetsFrom (acc + b.width * Gen.BLOCKWISE_LINEAR_BLOCK_SIZE / 8) bs
+
+def bwOffsets (blocks : List BwBlock) : List Nat := bwOffsetsFrom 0 blocks
 
 /-- mirrors: BlockwiseLinearReader::get_val -/
 def blockwiseGet (s : Stats) (blocks : List BwBlock) (offsets : List Nat) (data : Bytes) (i : Nat) : Nat :=
